@@ -256,6 +256,12 @@ func (e *Engine) VerifyFunction(fn *ssa.Function, ct *Contract, timeoutMs, par i
 		bindings = append(bindings, b)
 		// in the unit's own contract a captured variable is named like in the source
 		env.names[fv.Name()] = x.loadAt(s, deref(fv.Type()), b.L[0], b.L[1])
+		if constCapture(fn, len(bindings)-1, 0) {
+			if x.constFV == nil {
+				x.constFV = map[*ssa.FreeVar]Value{}
+			}
+			x.constFV[fv] = env.names[fv.Name()]
+		}
 	}
 	var ptrParams []Value
 	for _, a := range args {
